@@ -518,6 +518,28 @@ Definition package_chunk (o : oracles) (raw_src raw_want : list str) (lineno : n
       Ok (parts1 ++ parts2 ++ [lastp])
   end.
 
+(* the same with DoctestParser(simulate_repl=True): every statement a part of its own; the lines in front of the first
+   statement belong to the first part *)
+Definition package_chunk_repl (o : oracles) (raw_src raw_want : list str) (lineno : nat) : res (list part) :=
+  match raw_src with
+  | [] => Err E_Index
+  | first :: _ =>
+      let li := line_indent first in
+      let src := map (skipn li) raw_src in
+      let want := map (skipn li) raw_want in
+      let exec_all := map (skipn 4) src in
+      do loc <- locate_ps1 o src;
+      let '(ps1, mode_hint) := loc in
+      do tb <- ps1_directives o exec_all ps1;
+      let '(tab, brk) := tb in
+      let mk := slice_example exec_all src tab o lineno in
+      let bs := O :: tl ps1 in                              (* repl_linenos = [0] + ps1_linenos[1:] *)
+      do parts1 <- map_res (fun ab => mk (fst ab) (Some (snd ab)) [] M_exec) (consecutive_pairs bs);
+      let final_mode := if nonempty want then mode_hint else M_exec in
+      do lastp <- mk (last bs O) None want final_mode;
+      Ok (parts1 ++ [lastp])
+  end.
+
 (* ---------- _package_groups ---------- *)
 Fixpoint package_groups (o : oracles) (chunks : list chunk) (lineno : nat) : res (list item) :=
   match chunks with
@@ -528,6 +550,18 @@ Fixpoint package_groups (o : oracles) (chunks : list chunk) (lineno : nat) : res
   | CodeChunk s w :: rest =>
       do ps <- package_chunk o s w lineno;
       do r <- package_groups o rest (lineno + length s + length w);
+      Ok (map IPart ps ++ r)
+  end.
+
+Fixpoint package_groups_repl (o : oracles) (chunks : list chunk) (lineno : nat) : res (list item) :=
+  match chunks with
+  | [] => Ok []
+  | TextChunk ls :: rest =>
+      do r <- package_groups_repl o rest (lineno + length ls);
+      Ok (IText (join_nl ls) :: r)
+  | CodeChunk s w :: rest =>
+      do ps <- package_chunk_repl o s w lineno;
+      do r <- package_groups_repl o rest (lineno + length s + length w);
       Ok (map IPart ps ++ r)
   end.
 
@@ -550,6 +584,22 @@ Definition parse (o : oracles) (s : str) : parse_result :=
       | Err e => wrap FP_group e
       | Ok gs =>
           match package_groups o gs 0 with
+          | Err e => wrap FP_package e
+          | Ok items => Parsed items
+          end
+      end
+  end.
+
+(* DoctestParser(simulate_repl=True).parse *)
+Definition parse_repl (o : oracles) (s : str) : parse_result :=
+  let s1 := normalize_docstring s in
+  match label_lines (o_bal o) s1 with
+  | Err e => wrap FP_label e
+  | Ok ll =>
+      match group_lines ll with
+      | Err e => wrap FP_group e
+      | Ok gs =>
+          match package_groups_repl o gs 0 with
           | Err e => wrap FP_package e
           | Ok items => Parsed items
           end
